@@ -170,7 +170,7 @@ def build_obj(r: Any, counter: list, M: Any, shift: float = 0.0) -> Any:
     if tag == "u":
         return tuple(build_obj(x, counter, M, shift) for x in r[1])
     if tag == "d":
-        return {k: build_obj(v, counter, M, shift) for k, v in r[1]}
+        return {_key(k): build_obj(v, counter, M, shift) for k, v in r[1]}
     if tag == "m":
         return M(**{k: build_obj(v, counter, M, shift) for k, v in r[1]})
     raise ValueError(tag)
@@ -370,6 +370,10 @@ def _values(allow_module: bool = True):
             st.lists(ch, max_size=3).map(lambda l: ["l", l]),
             st.lists(ch, max_size=3).map(lambda l: ["u", l]),
             st.integers(11, 13).map(lambda n: ["u", [["t"]] * n]),
+            # a long sequence / integer-keyed dict (>= 11 entries: keys 1 and 10..19 share a decimal prefix) in which one entry holds no tensor at all
+            st.tuples(st.integers(11, 25), st.integers(0, 24), st.sampled_from(["l", "u", "di"]), st.sampled_from([["d", []], ["l", []], ["s", None], ["m", []]])).map(
+                lambda t: ([t[2], [(t[3] if i == t[1] % t[0] else ["t"]) for i in range(t[0])]] if t[2] != "di"
+                           else ["d", [[{"i": i}, (t[3] if i == t[1] % t[0] else ["t"])] for i in range(t[0])]])),
             st.lists(st.tuples(dkeys, ch), max_size=3, unique_by=lambda kv: kv[0]).map(lambda l: ["d", [list(x) for x in l]]),
         ]
         if allow_module:
